@@ -704,7 +704,7 @@ class ProductState:
             # Constructing einsum string
             ps = jnp.einsum(einsum, operator, ps)
 
-            if not jnp.any(jnp.abs(ps) > 0):
+            if not jnp.any(jnp.abs(ps) > 1e-12):
                 raise ValueError(
                     "The state is entirely composed of zeros, "
                     "is |0⟩ attempted to be annihilated?"
@@ -729,7 +729,7 @@ class ProductState:
             # Apply the Einstein Summation
             ps = jnp.einsum(einsum, operator, ps, jnp.conj(operator))
 
-            if not jnp.any(jnp.abs(ps) > 0):
+            if not jnp.any(jnp.abs(ps) > 1e-12):
                 raise ValueError(
                     "The state is entirely composed of zeros,"
                     "is |0⟩ attempted to be annihilated?"
